@@ -84,6 +84,7 @@ def filter_case(cfg, events, descr=None):
 
 
 ADVERSARIAL = [
+    "G1 X30 Y40 Z2 E5 F1500 X35", "G1 F1200 E2 Z1 Y12 X12 Y31 E3", "G0 X1 Y1 Z1 E1 F100 Z0.5 F200",
     "G1", "G0 X", "G1 X Y5", "G1 X5 X15", "G1 X15 Y15 X5", "G1 Z", "G1 E", "G1 F", "G1 X+15 Y-0",
     "G1 X.5 Y5.", "G1 X1e3", "G1 X15Y15", "g1 x15 y15", "G1 X15 Y15 ; c", "G1 X 15 Y 15",
     "G1 X1000000 Y-1000000", "G1 X0.0000001 Y0.0000001", "G1 E-0.00001", "G1 X15 Y15 E-1",
@@ -684,6 +685,20 @@ EVENTS = ["FILE_SELECTED", "SETTINGS_UPDATED", "PRINT_STARTED", "PRINT_DONE", "P
           "FILE_DESELECTED", "UPLOAD"]
 
 
+PAYLOADS = [None, None, {}, {"origin": "local", "name": "a.gcode"}, {"origin": "sdcard", "name": "a.gco"}]
+
+
+def event_payload(op):
+    """payload of an ('event', name[, payload]) op"""
+    return op[2] if len(op) > 2 else None
+
+
+def start_event(r):
+    """a PRINT_STARTED event with one of the payloads OctoPrint sends (local file, SD card file, …)"""
+    p = r.choice(PAYLOADS)
+    return ("event", "PRINT_STARTED") if p is None else ("event", "PRINT_STARTED", p)
+
+
 def event_value(name):
     Events = plugin_env()["Events"]
     return getattr(Events, name, name)
@@ -711,7 +726,7 @@ def plugin_case(ops, st0):
         for op in ops:
             k = op[0]
             if k == "event":
-                unit.on_event(event_value(op[1]), None)
+                unit.on_event(event_value(op[1]), event_payload(op))
                 steps.append(Step("pevent " + op[1], 2, eq(["ok", "pl " + plugin_digest(unit)]), label=repr(op)))
             elif k == "save":
                 apply_settings(unit, op[1])
@@ -873,9 +888,9 @@ def gen_two_prints(r):
     if r.random() < 0.7:
         ops.append(("api", False, "addExcludeRegion",
                     {"type": "RectangularRegion", "x1": 10.0, "y1": 10.0, "x2": 20.0, "y2": 20.0, "id": "a"}))
-    ops.append(("event", "PRINT_STARTED"))
+    ops.append(start_event(r))
     prog1 = ["G28", "G1 X5 Y5 Z0.2 F3000", "G1 X6 Y5 E1"]
-    mess = r.sample(["at_off", "inside", "retract_inside", "deferred", "g91", "g20", "m206", "wipe_in"],
+    mess = r.sample(["at_off", "inside", "retract_inside", "deferred", "g91", "g20", "m206", "wipe_in", "pause"],
                     r.randint(1, 4))
     for m in mess:
         if m == "at_off":
@@ -893,6 +908,9 @@ def gen_two_prints(r):
         elif m == "m206":
             # home offsets belong to the print that set them
             prog1.append(r.choice(["M206 X-10 Y-10", "M206 Z1", "M206 X5"]))
+        elif m == "pause":
+            # pausing and resuming do not end the print
+            prog1 += [("event", "PRINT_PAUSED"), ("event", "PRINT_RESUMED")]
         elif m == "wipe_in":
             # a move that enters the region while retracting (slicer "wipe"): the enter script and
             # the generated retraction end up in one returned list
@@ -903,17 +921,24 @@ def gen_two_prints(r):
         else:
             ops.append(("gcode", c, impl.split_cmd(c)[0]))
     ops.append(("event", r.choice(["PRINT_DONE", "PRINT_FAILED", "PRINT_CANCELLED", "PRINT_CANCELLING"])))
+    if r.random() < 0.4:
+        # between the prints nothing is filtered or tracked, whatever state the first print ended in
+        for c in r.sample(["G1 X50 Y50 F3000", "G1 X15 Y15", "G1 E5", "M117 idle", "G28"], r.randint(1, 3)):
+            ops.append(("gcode", c, impl.split_cmd(c)[0]))
     if r.random() < 0.3:
         ops.append(("api", False, "addExcludeRegion",
                     {"type": "RectangularRegion", "x1": 10.0, "y1": 10.0, "x2": 20.0, "y2": 20.0, "id": "b"}))
-    ops.append(("event", "PRINT_STARTED"))
+    ops.append(start_event(r))
     tail = r.choice([
         ["G28", "G1 X5 Y5 Z0.2 F3000", "G1 X15 Y15 E1", "G1 X16 Y16 E1.5", "M117 hi", "G1 X30 Y30", "G1 X31 Y30 E2"],
         # ends inside an episode, after a Z hop made outside was undone inside
         ["G28", "G1 X5 Y5 Z0.2 F3000", "G1 Z2", "G1 X15 Y15", "G1 Z0.3", "M117 hi"],
         ["G28", "G1 X5 Y5 Z2 F3000", "G1 X15 Y15 Z1 E1", "G1 Z0.2", "G1 E0.5"],
     ])
-    for c in tail:
+    pause_at = r.randint(1, len(tail)) if r.random() < 0.3 else -1
+    for k, c in enumerate(tail):
+        if k == pause_at:
+            ops += [("event", "PRINT_PAUSED"), ("event", "PRINT_RESUMED")]      # do not end the print
         ops.append(("gcode", c, impl.split_cmd(c)[0]))
     if r.random() < 0.3:
         ops.append(("script", r.choice(["gcode", "code", ""]), r.choice(["afterPrint", "Done", ""])))
@@ -942,7 +967,8 @@ def gen_plugin_case(r):
             ops.append(("get",))
         k = r.random()
         if k < 0.22:
-            ops.append(("event", r.choice(EVENTS)))
+            ev = r.choice(EVENTS)
+            ops.append(start_event(r) if ev == "PRINT_STARTED" else ("event", ev))
         elif k < 0.28:
             ops.append(("save", rand_settings(r)))
         elif k < 0.5:
